@@ -415,6 +415,10 @@ def build(tier):
     targets.append(Target('dtree_do_predict', [d['do_predict'], d['base_split'], d['do_split']], DH, replace=['dtree_do_split'],
                           loops=1, defines=['NV_DTREE_CALLER']))
     targets.append(Target('dtree_do_fit', [dtree_fit_fn()], 'specs/C10/dtree_fit.h'))
+    score = Fn('make_score', 'src/wlearner/criterion.cpp', 'make_score', flt='nano::wlearner::make_score', types=[(r'^nano::wlearner_criterion$', 'uint8_t')],
+               calls=[(r'^max\|const double &\(const double &, const double &\)', 'nv_max_d({0}, {1})'), (r'^epsilon\|', '(NV_EPS)'),
+                      (r'^AIC\|', 'nv_AIC'), (r'^AICc\|', 'nv_AICc'), (r'^BIC\|', 'nv_BIC')])
+    targets.append(Target('make_score', [score], 'specs/C10/criterion.h'))
     MH = 'specs/C10/trymerge.h'
     t = try_merge_fns()
     targets.append(Target('base_try_merge', [t['base']], MH))
@@ -437,10 +441,11 @@ def build(tier):
             'hinge: do_predict adds tables[0] * value + tables[1] to outputs row i iff the value is given and on the active side (left: value < threshold, right: value >= threshold), nothing otherwise and no other row is written; do_split assigns group 0 under the same condition (m_hinge one of the two enumerators); over the reals and with tables[1] == -threshold * tables[0] this is the MARS hinge on both sides (SMT lemmas)',
             'dtree do_split: the walk of any sample through the sibling pairs of m_nodes is a single path that starts at the root pair, follows at every visited pair the stump rule on the sample\'s own value of that pair\'s feature (value < threshold ? first : second child), ends at the first missing value without a group or at a leaf pair with group m_table + side, a row of m_tables; node / table indices in range; samples outside the argument are never assigned; depth 1 (root pair is a leaf pair): one visit, group m_table(root) + (value < threshold ? 0 : 1) = the stump rule',
             'dtree do_fit (structure only): nodes are stored in sibling pairs at even positions, both members of a pair carry the feature / threshold of the stump fitted for it and are both leaves or both inner nodes; a leaf pair gets the next two rows of m_tables, filled from rows 0 and 1 of that stump\'s tables in this order; an inner member\'s m_next is the later, in-range, even position of the pair fitted on its side (linked exactly when its queued cache is processed); members are replaced iff the returned score is not no_fit_score; depth 1: the stump\'s tables are rows 0 and 1 of m_tables -- this is the representation invariant dtree do_split / do_predict assume',
+            'wlearner::make_score (index discipline only): rss is clamped below by 1e3 * epsilon and passed with (k, n) unchanged and in order to exactly the formula the criterion names (AIC / AICc / BIC uninterpreted), the plain criterion returns the clamped rss',
             'dtree do_predict: through wlearner_t::split (compatibility check, then do_split) the row i of outputs receives exactly one update, the m_tables row of the group split() reports for samples(i), and none if there is no group; depth 1: the stump_do_predict contract',
         ],
         'not_decided': [
-            'minimum RSS over the hypothesis class (all do_fit functions, accumulators, criterion): optimisation over float moment sums',
+            'minimum RSS over the hypothesis class (all do_fit functions, accumulators, values of the criteria): optimisation over float moment sums; accumulator_t (moment sums, cluster()) is not under contract',
             'termination of the breadth-first walks of dtree do_split / do_fit; the scores, samples and stopping rule of dtree do_fit (stump fits are opaque)',
             'hinge do_fit stores tables[1] = -threshold * tables[0] (hypothesis of the SMT lemmas)',
             'numeric value of the scaled coefficients (Eigen *= is recorded, not computed); sums of merged / predicted coefficients are exact only as uninterpreted IEEE terms',
